@@ -104,7 +104,7 @@ def tla_op_to_str(o):
     return op_str(o["n"], o["v"], o["w"], o["a"], o["b"], o["s"]["f"], o["s"]["x"], o["q"])
 
 
-def gen_ops(rng, nops, alias=0.0, nv=4, two=True, big=False):
+def gen_ops(rng, nops, alias=0.0, nv=4, two=True, big=False, lo=1):
     """seeded generator of RAW operations (the driver resolves positions against the real sizes and skips
     what the interface does not allow in the current state)"""
     forms = ["ext", "ext", "val", "extm"]
@@ -112,7 +112,7 @@ def gen_ops(rng, nops, alias=0.0, nv=4, two=True, big=False):
     def src():
         if alias and rng.random() < alias:
             return "self", rng.randrange(0, 50)
-        return rng.choice(forms), rng.randint(1, nv)
+        return rng.choice(forms), rng.randint(lo, nv)
 
     def cnt():
         r = rng.random()
@@ -123,13 +123,13 @@ def gen_ops(rng, nops, alias=0.0, nv=4, two=True, big=False):
         return rng.randint(4, 9 if not big else 40)
 
     def seq():
-        return [rng.randint(1, nv) for _ in range(cnt() if rng.random() < 0.8 else 0)]
+        return [rng.randint(lo, nv) for _ in range(cnt() if rng.random() < 0.8 else 0)]
 
     ops = []
     # creation
     def create(v):
         c = rng.choice(["new", "new", "newn", "newnv", "newr", "newm", "cpc", "mvc"])
-        f, x = rng.choice(["ext"]), rng.randint(1, nv)
+        f, x = rng.choice(["ext"]), rng.randint(lo, nv)
         return op_str(c, v, 0, 0, cnt(), f, x, seq())
 
     ops.append(create(1))
@@ -169,6 +169,10 @@ def fixed_programs():
     P.append([o("newm", b=3), o("rsz", b=2), o("rszv", b=5, f="ext", x=2), o("rsz", b=1), o("asgn", b=4, f="ext", x=3), o("asgr", q=[1, 2]), o("asgc", b=6), o("asgc", b=1), o("pb", f="ext", x=2)])
     # two vectors: copy / move / swap, stale elements travel with the buffer
     P.append([o("newr", q=[1, 2, 3]), o("cpc", v=2), o("pop", v=2), o("swp", v=1), o("pb", v=1, f="ext", x=3), o("mva", v=2), o("cpa", v=1), o("clr", v=2), o("cpa", v=1), o("del", v=2), o("mvc", v=2), o("pb", v=1, f="val", x=1), o("pb", v=2, f="val", x=2)])
+    # payload classes on the fresh and on the reused path: 3 = short with embedded NUL, 8 = long with embedded NUL, 0 = empty, 6 = long
+    P.append([o("new"), o("pb", f="ext", x=3), o("pb", f="ext", x=8), o("pb", f="ext", x=0), o("pb", f="val", x=3), o("pb", f="val", x=8), o("pb", f="extm", x=8), o("clr"),
+              o("pb", f="ext", x=8), o("pb", f="ext", x=3), o("pb", f="val", x=8), o("pb", f="val", x=3), o("pb", f="ext", x=0), o("pb", f="ext", x=6), o("pop"), o("pop"), o("pop"),
+              o("ins", a=1, f="ext", x=3), o("insn", a=0, b=2, f="ext", x=8), o("clr"), o("rszv", b=3, f="ext", x=3), o("asgn", b=4, f="ext", x=8), o("asgr", q=[3, 0, 8]), o("clr"), o("insr", a=0, q=[8, 3, 0, 6])])
     # capacity 1 and 2
     P.append([o("newn", b=1), o("pb", f="ext", x=1), o("ins", a=0, f="ext", x=2), o("era", a=1), o("era", a=0), o("ins", a=0, f="extm", x=3), o("pop"), o("pop"), o("ins", a=0, f="val", x=1)])
     return P
